@@ -44,7 +44,7 @@ def compare(case, ref, obs):
             same = (abs(got - v) < 1e-9) if isinstance(v, float) and got is not None else got == v
             if not same:
                 diffs["atoms"].append(("atom-" + k, "atom %d (%s of residue %s%d): %s is %r, block says %r" %
-                                       (oa["idx"], ea["name"], ea["resname"], ea["resid"], k, got, v), None))
+                                       (oa["idx"], ea["name"], ea["resname"], ea["resid"], k, got, v), ea["resid"]))
         # charge groups: block value shifted by one constant per block instance
         inst = (ea["block"], ea["idx"] - ea["loc"])
         shift = oa["cg"] - (ea["cg"])
@@ -68,8 +68,8 @@ def compare(case, ref, obs):
         if all(a in renum for a in ga):
             link_atomsets.add((refparams.file_sec(sec), refparams.canon_atoms(sec, tuple(renum[a] for a in ga))))
     for sec in sorted(set(exp) | set(obs["inter"])):
-        if sec == "exclusions":
-            continue
+        if sec == "exclusions" or sec in obs.get("raw", {}):
+            continue          # rows of a layout the reader has no rule for are not judged
         e = exp.get(sec, Counter())
         o = obs["inter"].get(sec, Counter())
         for key in set(e) | set(o):
@@ -193,3 +193,112 @@ def witness(case, extra=None):
     if extra:
         w.update(extra)
     return w
+
+
+# ----------------------------------------------------------------------------- library stratum
+LIBRARIES = ["2016H66", "gromos53A6", "ibi_cgm3", "martini2", "martini3", "martini3", "2016H66", "martini3_beta",
+             "oplsaaLigParGen", "parmbsc1"]
+_LIBCACHE = {}
+
+
+def library(lib):
+    """(converted definitions, co-occurrence groups) of one library force field, as polyply parses it"""
+    if lib not in _LIBCACHE:
+        from polyply.src.load_library import load_ff_library
+        from ..oracle import fromvermouth
+        conv = fromvermouth.convert_force_field(load_ff_library("pvmon", [lib], []))
+        groups = []
+        for _c, _why, names in conv["links"]:
+            if names:
+                g = sorted(n for n in names if isinstance(conv["blocks"].get(n), dict))
+                if g and g not in groups:
+                    groups.append(g)
+        if not groups:
+            groups = [sorted(n for n, b in conv["blocks"].items() if isinstance(b, dict))]
+        _LIBCACHE[lib] = (conv, groups)
+    return _LIBCACHE[lib]
+
+
+def build_library_case(rng, nmin=2, nmax=7, lib=None, prefer=None):
+    """a residue graph over the blocks of one library force field; the definitions are the parsed library"""
+    from ..gen import resgraph as RG
+    lib = lib or rng.choice(LIBRARIES)
+    conv, groups = library(lib)
+    names = set(rng.choice(groups))
+    if rng.random() < 0.35:
+        names |= set(rng.choice(groups))
+    if prefer:
+        names = {n for n, b in conv["blocks"].items() if n in prefer and isinstance(b, dict)} or names
+    names = rng.sample(sorted(names), min(len(names), rng.randint(1, 3)))
+    graph = RG.gen_graph(rng, names, nmin=nmin, nmax=nmax, kinds=("lin", "lin", "lin", "tree", "ring"))
+    if lib == "2016H66":
+        for n in graph["nodes"]:
+            if rng.random() < 0.6:
+                n["chiral"] = rng.choice(["R", "S"])
+    used = {n["resname"] for n in graph["nodes"]}
+    skipped = []
+    links = []
+    for c, why, lnames in conv["links"]:
+        if c is None:
+            if lnames is None or lnames & used:
+                skipped.append(why)
+            continue
+        links.append(c)
+    spec = {"blocks": [conv["blocks"][n] for n in sorted(used)], "links": links}
+    return {"spec": spec, "graph": graph, "files": [], "inpath": [], "layout": "library:" + lib, "lib": lib,
+            "unsupported_links": skipped,
+            "descr": {"library": lib, "graph": RG.describe(graph),
+                      "residue_attributes": {n["key"]: n["chiral"] for n in graph["nodes"] if "chiral" in n}}}
+
+
+def evaluate_library(case, workdir, out="out.itp"):
+    """like evaluate(), the definitions coming from polyply's library (lib=[name])"""
+    from ..gen import resgraph as RG
+    RG.to_json(case["graph"], os.path.join(workdir, "case.json"))
+    outp = os.path.join(workdir, out)
+    if os.path.exists(outp):
+        os.remove(outp)
+    ref = None
+    if not case["unsupported_links"]:
+        try:
+            ref = refparams.reference(case["spec"], case["graph"])
+        except refparams.Unsupported:
+            ref = None
+    if ref is not None:
+        _apply_default_termini(case, ref)
+    run = pipeline.run_gen_params(name="POLY", outpath=Path(outp), inpath=[], lib=[case["lib"]], seq=None,
+                                  seq_file=Path(workdir) / "case.json")
+    res = {"run": run, "ref": ref, "obs": None, "diffs": None, "renum": None, "out": outp}
+    if run["status"] == "ok" and os.path.exists(outp):
+        res["obs"] = itp_min.read_itp(outp)
+        if ref is not None:
+            res["diffs"], res["renum"] = compare(case, ref, res["obs"])
+    return res
+
+
+PROTEIN = set("GLY|ALA|CYS|VAL|LEU|ILE|MET|PRO|HYP|ASN|GLN|ASP|ASP0|GLU|GLU0|THR|SER|LYS|LYS0|ARG|ARG0|HIS|HISH|PHE|TYR|"
+              "TRP".split("|"))
+
+
+def default_termini(case):
+    """residue ids that gen_params modifies without being asked (first and last residue of an amino-acid chain)"""
+    nodes = sorted(case["graph"]["nodes"], key=lambda n: n["resid"])
+    return {n["resid"] for n in (nodes[0], nodes[-1]) if n["resname"] in PROTEIN}
+
+
+def _apply_default_termini(case, ref):
+    """C01: 'a terminal modification may differ' - without -mods the first and the last residue of an amino-acid chain
+    get the library's N-ter and C-ter modification: the attributes they name on the atoms they name"""
+    mods = library(case["lib"])[0]["mods"]
+    if not mods:
+        return
+    nodes = sorted(case["graph"]["nodes"], key=lambda n: n["resid"])
+    for node, mname in ((nodes[0], "N-ter"), (nodes[-1], "C-ter")):
+        if node["resname"] not in PROTEIN or mname not in mods:
+            continue
+        if mods[mname]["interactions"]:
+            raise refparams.Unsupported("terminal modification with interactions")
+        for a in ref["atoms"]:
+            if a["res"] == node["key"] and a["name"] in mods[mname]["atoms"]:
+                ref["replaced"].setdefault(a["idx"], {}).update(mods[mname]["atoms"][a["name"]])
+                ref.setdefault("termini_atoms", set()).add(a["idx"])
